@@ -45,8 +45,8 @@ PROPS = {
                    'itself contradicts certified truth (that is C01/C02 territory)',
         technique='runtime monitoring: basis-invariant oracle with exact rank test at hooked history points, under ASan+UBSan',
         stages=lambda t: two_flavour('h_solve', 1200, 5000, 25000, 120000)(t) + [
-            dict(name='exact-forcebasic-asan', harness='h_exact', flavour='asan', cases=300 if t == 'quick' else 3000),
-            dict(name='exact-forcebasic-opt', harness='h_exact', flavour='opt', cases=1200 if t == 'quick' else 12000)],
+            dict(name='exact-forcebasic-asan', harness='h_exact', flavour='asan', cases=300 if t == 'quick' else 3000, crash_markers=['lifting=1', 'iterative_refinement=0']),
+            dict(name='exact-forcebasic-opt', harness='h_exact', flavour='opt', cases=1200 if t == 'quick' else 12000, crash_markers=['lifting=1', 'iterative_refinement=0'])],
         minima=lambda t: {'c04g.forcebasic_checked': 20, 'c04.basis_checked': 500, 'c04.setbasis_roundtrip': 300, 'c04.reuse.new-object': 200, 'c04.reuse.same-object': 200,
                           'c04.setbasis_fuzz_regular': 50, 'basis.exact_regularity_checks': 500},
         eval_counter='cases', distinct_set='nontrivial',
